@@ -118,6 +118,9 @@ def structured(b, r):
             cut = L[name] + d if name != "hdr" else L["hdr"] + 44 + d
             if 0 <= cut < len(b):
                 yield "trunc@%s%+d" % (name, d), b[:cut]
+    for d in (1, 2, 5):          # ... and inside the footer (the closing newline, the last characters of the rule)
+        if len(b) > d:
+            yield "trunc@last-%d" % d, b[:len(b) - d]
     # 8. footer
     if not L["v1"]:
         body = b[:L["end"]]
